@@ -60,6 +60,10 @@ CHECKS = {
    text="The base schedule (3/4 inserts through the leader(s), eager delivery) plus every placement of up to 2 fault events (flush one table, flush all, clean stop/start, crash with the directory image of that instant, cut, reconnect, gate, ungate, leader restart, snapshot, restore) at every position, on two tables with different partition keys so per-table offsets diverge; after healing, every table's rows summed over partitions must equal a standalone DB, redundant followers must be identical and leader queries must equal standalone.",
    note="Layer 1 of DESIGN §C12 only: the TLA+ offset model with trace replay and the real-server cross-check are not built yet. The reconnect policy of server.followSource is re-implemented in the driver.",
    ref="§3 C12"),
+ "C02": dict(cat="fault_enumeration", tech="exhaustive crash-image enumeration: every hit of every instrumented step of every bounded history, plus torn WAL tails, recovered on the real code",
+   text="Every history of the bound over 4 inserts, Flush(t1), FlushAll and clean Restart on two tables (one with a WHERE, reaching the offset-only flush path) runs once on the real write path; at every hit of each of 17 instrumented steps the data directory is copied (exactly what SIGKILL at that instant leaves) and the in-flight WAL entry is additionally torn to 6 length classes; every distinct image is recovered by a fresh DB to exact quiescence and compared with the reference model of acknowledged inserts (in-flight: 0 or 1); thorough recovers twice. A real child process exiting inside the hook validates the image abstraction.",
+   note="Process-kill model (page cache survives): no unsynced-block subsets, no reordered renames. Kill instants inside the wal dependency are represented only by the torn-tail classes. Conformance compares file rank and size (contents embed wall-clock WAL offsets).",
+   ref="§3 C02"),
 }
 
 NOT_YET = {}
